@@ -33,7 +33,7 @@ def directions(rng, n):
             z = rng.uniform(-1, 1)
             out.append((rng.uniform(0, 360), math.degrees(math.asin(z))))
         elif r < 0.75:
-            out.append((rng.uniform(0, 360), rng.choice([1, -1]) * (90.0 - 10 ** rng.uniform(-7, 0.7))))
+            out.append((rng.uniform(0, 360), rng.choice([1, -1]) * (90.0 - 10 ** rng.uniform(-9.3, 0.7))))
         elif r < 0.9:
             out.append((rng.choice([0.0, 360.0 - 1e-9, 1e-9, 180.0, 90.0]) + rng.uniform(-1e-6, 1e-6) % 360.0, rng.uniform(-80, 80)))
         else:
@@ -102,7 +102,8 @@ def _conv_events(C, A, rng, lon, lat, G, pole):
         gl, gb = C.equatorial2galactic(A(lon), A(lat))
         rb, db = C.galactic2equatorial(gl, gb)
         qa, qd = C.galactic2equatorial(A(lon), A(lat))
-        yield {"k": "gal", "in": [lon, lat], "maxlat": max(polar, abs(float(gb)), abs(float(qd))), "G": G, "pole": pole,
+        yield {"k": "gal", "q": F3(U(float(qa), float(qd))), "latqf": abs(float(qd)),
+               "in": [lon, lat], "maxlat": max(polar, abs(float(gb)), abs(float(qd))), "G": G, "pole": pole,
                "u": F3(U(lon, lat)), "v": F3(U(float(gl), float(gb))), "w": F3(U(float(rb), float(db))),
                "lon": fx(float(gl)), "lat": fx(float(gb)), "lonq": fx(float(qa)), "latq": fx(float(qd))}
 
@@ -148,6 +149,12 @@ def gen_sep(seed, shard, n):
         b = [(a1, d1)]
         for _j in range(2):
             b.append((a1 + rng.uniform(-2, 2) / max(0.05, math.cos(math.radians(d1))), max(-89.9, min(89.9, d1 + rng.uniform(-2, 2)))))
+        if rng.random() < 0.25:
+            # a thin triangle: two bodies very close together and the third nearly equidistant from both
+            eps_ = 10 ** rng.uniform(-6, -2)
+            off = rng.uniform(0.05, 2.0)
+            b = [(a1, d1 + eps_), (a1, d1 - eps_), (a1 + off / max(0.05, math.cos(math.radians(d1))), d1 + rng.uniform(-0.3, 0.3) * eps_)]
+            b = [(x, max(-89.9, min(89.9, y))) for (x, y) in b]
         order = list(range(3))
         rng.shuffle(order)
         pts = [b[i] for i in order]
